@@ -24,7 +24,8 @@ func init() {
 			"(R5) package-level state written during Compile is re-initialised before use. " +
 			"Does NOT decide that an inlined copy and a call behave alike in the VM, nor uniqueness of the random loop ids." +
 			" Round 4: (R10) no address of a per-loop variable is kept across iterations (go 1.19 loop-variable semantics)." +
-			" (R11) the identity of a subroutine activation is an offset-derived instruction field (same rule as C01.R10).",
+			" (R11) the identity of a subroutine activation is an offset-derived instruction field (same rule as C01.R10)." +
+			" Round 5: (R12) group numbering restarts with every regexp literal.",
 		Assumptions: commonAssumptions,
 		Rules: []RuleFn{
 			{Name: "C13.R1", Run: func(c *Ctx) { ruleAdjustPure(c, "C13.R1") }},
@@ -36,6 +37,7 @@ func init() {
 				ruleLoopVarAddressNotKept(c, "C13.R10", []string{"ast", "bytecode", "engine", "libvore", "files"})
 			}},
 			{Name: "C13.R11", Run: func(c *Ctx) { ruleActivationIdentity(c, "C13.R11") }},
+			{Name: "C13.R12", Run: func(c *Ctx) { ruleGroupNumbering(c, "C13.R12", false) }},
 			{Name: "C13.R3", Run: func(c *Ctx) { ruleProgramReadOnly(c, "C13.R3") }},
 			{Name: "C13.R4", Run: func(c *Ctx) { ruleCommandScope(c, "C13.R4") }},
 			{Name: "C13.R6", Run: func(c *Ctx) { ruleAttemptFresh(c, "C13.R6") }},
@@ -47,7 +49,8 @@ func init() {
 		Explanation: "The input/output equivalence with a reference matcher is NOT decided. Decided are four structural mechanisms named by the property's anchors: (R1) dispatch completeness - every concrete node/instruction type converted to a pipeline interface has a case of the same pointer-ness in the consumer's type switch, and the character-class enum switches are exhaustive; (R2) relocation completeness - every instruction field that receives an offset-derived program counter in the generator is shifted by adjust; (R3) scan discipline - the next start position of findMatches is the end of the successful non-empty attempt or exactly one byte further, line/column updated from the byte stepped over, loop exit at the end of input; attempts start from a fresh VM state; (R4) adjust is applied only to the stored body of a definition; (R5) greedy/lazy loop protocol as a typestate: where the checkpoint sits relative to the continuing and the leaving branch; (R6) every checkpoint popped from the backtrack stack is resumed on all paths, and checkpoints are isolated snapshots (R6b = C02.R1). " +
 			"Not decided: per-instruction semantics, priority order of alternatives, what each jump target means to the VM." +
 			" Round 4: (R8) with every read at the current offset returning \"\" and the offset equal to reader.Size(), no primitive reaches CONSUME (helpers that consume for their callers hand the obligation on; CONSUME(reader.Size()) and progress-tested CONSUMEs exempt); (R9) the zero-width cut is control-dependent on `iteration >= MinLoops`." +
-			" (R10) the identity of a subroutine activation is an offset-derived instruction field.",
+			" (R10) the identity of a subroutine activation is an offset-derived instruction field." +
+			" Round 5: (R11) the empty text matches with zero width; (R12) Reader.Read/ReadAt return nothing or exactly the bytes asked for; (R13) the generator does not reorder AST items; (R14) renumbering passes cover every program-counter field.",
 		Assumptions: commonAssumptions,
 		Rules: []RuleFn{
 			{Name: "C01.R1", Run: func(c *Ctx) {
@@ -70,6 +73,10 @@ func init() {
 			{Name: "C01.R8", Run: func(c *Ctx) { ruleNothingConsumedAtEnd(c, "C01.R8") }},
 			{Name: "C01.R9", Run: func(c *Ctx) { ruleZeroWidthCutRespectsMinimum(c, "C01.R9") }},
 			{Name: "C01.R10", Run: func(c *Ctx) { ruleActivationIdentity(c, "C01.R10") }},
+			{Name: "C01.R11", Run: func(c *Ctx) { ruleEmptyTextMatches(c, "C01.R11") }},
+			{Name: "C01.R12", Run: func(c *Ctx) { ruleReaderAllOrNothing(c, "C01.R12") }},
+			{Name: "C01.R13", Run: func(c *Ctx) { ruleNoReorderingInGenerator(c, "C01.R13") }},
+			{Name: "C01.R14", Run: func(c *Ctx) { ruleRenumberingComplete(c, "C01.R14") }},
 			{Name: "C01.R3", Run: func(c *Ctx) { ruleScanDiscipline(c, "C01.R3"); ruleAttemptFresh(c, "C01.R3b") }},
 		},
 	})
@@ -77,7 +84,8 @@ func init() {
 		ID: "C02",
 		Explanation: "Decides the structural conditions that make reported variables the bindings of the successful path: (R1) snapshot isolation - every reference-typed component of the VM state that is mutated in place anywhere in package engine (computed: methods that write through their receiver, and the fields they are invoked on) is freshly allocated, deeply, in the value returned by Copy; CHECKPOINT pushes such a copy; (R2) STARTVAR records len(currentMatch), ENDVAR binds currentMatch[startOffset:] on every returning path, MATCHVAR matches the bound text unchanged; (R3) every instruction handler neither stores through nor calls a mutating method on its incoming state and returns its Copy; (R4) every attempt starts from a freshly created state. " +
 			"Scoped exclusions: the saved snapshots reachable only through `backtrack` (LIFO argument, stated) and the shared reader. Does NOT decide which binding is the most recent one when a name is bound repeatedly, nor named-loop nesting." +
-			" Round 4: (R7) the restore used by BACKTRACK assigns every field of the state that matching writes, from the same field of the checkpoint; (R8) a loop record's bindings are indexed with that record's own iteration counter.",
+			" Round 4: (R7) the restore used by BACKTRACK assigns every field of the state that matching writes, from the same field of the checkpoint; (R8) a loop record's bindings are indexed with that record's own iteration counter." +
+			" Round 5: (R9) the empty text matches with zero width; (R10) a variable reference is not compiled to a literal.",
 		Assumptions: commonAssumptions,
 		Rules: []RuleFn{
 			{Name: "C02.R1", Run: func(c *Ctx) { ruleSnapshotIsolation(c, "C02.R1") }},
@@ -87,13 +95,16 @@ func init() {
 			{Name: "C02.R5", Run: func(c *Ctx) { ruleValueCopyDeep(c, "C02.R5"); ruleBoundTextIsConsumedText(c, "C02.R6") }},
 			{Name: "C02.R7", Run: func(c *Ctx) { ruleRestoreComplete(c, "C02.R7") }},
 			{Name: "C02.R8", Run: func(c *Ctx) { ruleIterationKeyFromSameRecord(c, "C02.R8") }},
+			{Name: "C02.R9", Run: func(c *Ctx) { ruleEmptyTextMatches(c, "C02.R9") }},
+			{Name: "C02.R10", Run: func(c *Ctx) { ruleReferenceNotFolded(c, "C02.R10") }},
 		},
 	})
 	register(&Property{
 		ID: "C03",
 		Explanation: "Decides the inductive skeleton behind `every match is a faithful, ordered, located slice`: (R1) single writer - the text/offset/line/column fields of the VM state are stored only by CONSUME, Set and the constructors; (R2) coherent step - CONSUME appends exactly the string it read and advances the offset by that string's length, updating line/column in a range over the same string; (R3) the match record is built from the start/current counters, the value from currentMatch, the number from the parameter, and CreateState starts current* and start* from the same argument with an empty text; (R4) a match is pushed only when non-empty, numbered matchNumber+1, and the next attempt starts at its end (scan discipline). " +
 			"Does NOT decide that Reader.Read returns the bytes at the offset (C07), column arithmetic for multi-byte input, nor the arithmetic itself." +
-			" Round 4: (R7) the number handed to MakeMatch is the scan's match counter + 1, the counter being identified from the loop bound.",
+			" Round 4: (R7) the number handed to MakeMatch is the scan's match counter + 1, the counter being identified from the loop bound." +
+			" Round 5: (R8) ds.NewRange keeps its arguments in their places.",
 		Assumptions: commonAssumptions,
 		Rules: []RuleFn{
 			{Name: "C03.R1", Run: func(c *Ctx) { ruleSingleWriter(c, "C03.R1") }},
@@ -103,6 +114,7 @@ func init() {
 			{Name: "C03.R5", Run: func(c *Ctx) { ruleBindingProvenance(c, "C03.R5") }},
 			{Name: "C03.R6", Run: func(c *Ctx) { ruleReaderOffsetsAreFileOffsets(c, "C03.R6") }},
 			{Name: "C03.R7", Run: func(c *Ctx) { ruleMatchNumberProvenance(c, "C03.R7") }},
+			{Name: "C03.R8", Run: func(c *Ctx) { ruleRangeKeepsOrder(c, "C03.R8") }},
 		},
 	})
 	register(&Property{
@@ -110,7 +122,8 @@ func init() {
 		Explanation: "Decides the structural conditions of `a replacement is the concatenation of its with-items for that match`: (R1) dispatch completeness for with-items (AstAtom -> generator, ReplaceInstruction -> executeReplace); (R2) every store to the replacement text appends to the previous text, and match records are written only by MakeMatch (plus Replacement by the two write primitives); (R3) every match gets a replacer state of its own - the state the replacer program starts from, found by role, is created per match (or per call of the helper that handles one match) from a deep copy of that match's variables, and its match is what is reported; (R3b) no table that is written while one match is replaced is installed into the state of the next; (R7) every run of a transform or predicate gets an environment map created for that run; (R6) the kind of a with-item depends only on the transform table, and WRITEVAR appends exactly when the name is bound to a string. " +
 			"Does NOT decide what a transform computes (C11) nor the order of items beyond program order." +
 			" Round 4: (R10) the built-in matchNumber derives from Match.MatchNumber." +
-			" (R11) with every status read fixed to the one set by `return`, no loop that runs process statements goes round again.",
+			" (R11) with every status read fixed to the one set by `return`, no loop that runs process statements goes round again." +
+			" Round 5: (R12) captures are bound as strings for process code.",
 		Assumptions: commonAssumptions,
 		Rules: []RuleFn{
 			{Name: "C05.R1", Run: func(c *Ctx) {
@@ -126,6 +139,7 @@ func init() {
 			{Name: "C05.R9", Run: func(c *Ctx) { ruleTransformBoundAtCompileTime(c, "C05.R9") }},
 			{Name: "C05.R10", Run: func(c *Ctx) { ruleMatchNumberBuiltin(c, "C05.R10") }},
 			{Name: "C05.R11", Run: func(c *Ctx) { ruleReturnStopsStatements(c, "C05.R11") }},
+			{Name: "C05.R12", Run: func(c *Ctx) { ruleCapturesAreStrings(c, "C05.R12") }},
 			{Name: "C05.R5", Run: func(c *Ctx) { rulePlumbing(c, "C05.R5") }},
 			{Name: "C05.R6", Run: func(c *Ctx) { ruleItemKinds(c, "C05.R6") }},
 		},
@@ -134,7 +148,9 @@ func init() {
 		ID: "C04",
 		Explanation: "Decides that the amount clause can only select a window of one fixed match sequence: (R1) non-interference - in the scan loop of findMatches neither the next scan position/line/column/match counter, nor the arguments of CreateState and MakeMatch, are data-dependent on skip/take/last or control-dependent on a branch whose condition depends on them (loop-exit branches exempt: they truncate), and the same holds for everything findMatches stores into the VM state or passes to a function together with it (all included); (R2) a match is pushed exactly under success && non-empty && matchNumber >= skip, numbered matchNumber+1, the loop bound is matchNumber < skip+take, Limit(last) follows every push when last != 0 and drops from the front; (R3) the five clause forms of parse_amount return the documented (all, skip, take, last) tuples; (R4) the four values keep their identity from parser to generator to findMatches for both find and replace; (R5) match records (number, offsets, text, variables) are written by MakeMatch only, so no window renumbers them. " +
 			"Does NOT decide the queue's arithmetic beyond that Limit pops from the front." +
-			" Round 4: (R6) the number handed to MakeMatch is the scan's match counter + 1; (R7) each match gets a replacer state of its own.",
+			" Round 4: (R6) the number handed to MakeMatch is the scan's match counter + 1; (R7) each match gets a replacer state of its own." +
+			" (R8) with `all` fixed to true, collecting a match still depends on a test of skip." +
+			" Round 5: (R9) every match of the window yields one replaced match.",
 		Assumptions: commonAssumptions,
 		Rules: []RuleFn{
 			{Name: "C04.R1", Run: func(c *Ctx) { ruleScanNonInterference(c, "C04.R1") }},
@@ -144,13 +160,16 @@ func init() {
 			{Name: "C04.R5", Run: func(c *Ctx) { ruleWhoWritesMatch(c, "C04.R5", false) }},
 			{Name: "C04.R6", Run: func(c *Ctx) { ruleMatchNumberProvenance(c, "C04.R6") }},
 			{Name: "C04.R7", Run: func(c *Ctx) { rulePerMatchReplacer(c, "C04.R7") }},
+			{Name: "C04.R8", Run: func(c *Ctx) { ruleSkipAppliesWhenAllIsSet(c, "C04.R8") }},
+			{Name: "C04.R9", Run: func(c *Ctx) { ruleEveryMatchIsReplaced(c, "C04.R9") }},
 		},
 	})
 	register(&Property{
 		ID: "C08",
 		Explanation: "Decides structural necessary conditions of `Compile never panics, never loops, never returns holes`: (R1) every lexer loop that reads input has no feasible cycle once read() returns the end-of-input sentinel (constant propagation of 0 through the loop, folding of the pure character predicates); (R2) every explicit panic reachable from Compile is the default of an exhaustive switch, the fall-out of a complete type switch, or in a frozen trusted table; (R3) no parse function's (nil, index, nil) return reaches a conversion or dereference without a nil test; (R4) every index into the regex pattern string and into the filtered expression-token slice is dominated by a comparison with len, with the entry-parameter obligation discharged at every call site; (R5) a typestate with function summaries over the token parser: an index may equal len(tokens) only when it leaves a scan loop that compares its counter with len(tokens) and has no exit on the EOF kind; such an index must pass a `< len(tokens)` test before it indexes the list or reaches a callee that does; (R6) TokenType.PP is exhaustive and error constructors never get a nil token; (R7) the generator's and checker's type switches turn an unmatched or nil node into an error; (R8) the API functions returning (*Vore, error) return a program built on that path, a non-nil error, or both results of a function held to the same rule - never (nil, nil); (R9) every HexToAscii call is dominated by two IsHex tests; (R10) every loop of the generator and checker is counted or a range iteration. " +
 			"Does NOT decide stack depth on deeply nested input nor memory/time of large unrolled loops (`exactly 1000000000 'a'`)." +
-			" Round 4: (R11) every mutex locked in the compile path is released on every path out of the function; (R12) variable indexes into fixed-size tables are bounded by the table length.",
+			" Round 4: (R11) every mutex locked in the compile path is released on every path out of the function; (R12) variable indexes into fixed-size tables are bounded by the table length." +
+			" Round 5: (R13) getTokens stops on every EOF token.",
 		Assumptions: append([]string{"tokens always ends in an EOF token and consumeIgnoreableTokens never steps past it (axioms A1, A2)", "bufio.Reader's end of input is sticky (A3)"}, commonAssumptions...),
 		Rules: []RuleFn{
 			{Name: "C08.R1", Run: func(c *Ctx) { ruleEOFWorld(c, "C08.R1") }},
@@ -174,6 +193,7 @@ func init() {
 			{Name: "C08.R10", Run: func(c *Ctx) { ruleBoundedLoops(c, "C08.R10", []string{"bytecode"}) }},
 			{Name: "C08.R11", Run: func(c *Ctx) { ruleLocksReleased(c, "C08.R11", []string{"ast", "bytecode", "libvore"}) }},
 			{Name: "C08.R12", Run: func(c *Ctx) { ruleArrayIndexBounded(c, "C08.R12", []string{"ast", "bytecode", "libvore", "ds"}) }},
+			{Name: "C08.R13", Run: func(c *Ctx) { ruleTokenListEndsAtEOF(c, "C08.R13") }},
 		},
 	})
 	register(&Property{
@@ -194,7 +214,8 @@ func init() {
 	register(&Property{
 		ID: "C07",
 		Explanation: "The equivalence of buffered file reading with in-memory reading over all sizes and seek/read histories is a property of the window arithmetic in BufferedFile.Seek/Read and is NOT decided. Decided: (R1) no read in package files turns end of input into a panic (io.EOF excluded, or at least one byte requested and available); (R2) each Reader constructor sets size to the length of what its contents deliver; (R3) Reader.Read is called only after a Seek on the same reader (axiom A5) and BufferedFile's methods never use the OS file cursor, only positioned ReadAt; (R4) every search gets a reader opened for it in the same loop iteration (no reader, with its buffered window and size, is kept across commands)." +
-			" Round 4: (R9) every Read([]byte) implementation in package files delivers len(p) bytes when it returns no error.",
+			" Round 4: (R9) every Read([]byte) implementation in package files delivers len(p) bytes when it returns no error." +
+			" Round 5: (R10) Reader.Read/ReadAt return nothing or exactly the bytes asked for.",
 		Assumptions: commonAssumptions,
 		Rules: []RuleFn{
 			{Name: "C07.R1", Run: func(c *Ctx) { ruleEOFNotAnError(c, "C07.R1") }},
@@ -206,13 +227,15 @@ func init() {
 			{Name: "C07.R7", Run: func(c *Ctx) { ruleNoSharedBuffers(c, "C07.R7") }},
 			{Name: "C07.R8", Run: func(c *Ctx) { ruleReadOffsetsNonNegative(c, "C07.R8") }},
 			{Name: "C07.R9", Run: func(c *Ctx) { ruleFullReads(c, "C07.R9") }},
+			{Name: "C07.R10", Run: func(c *Ctx) { ruleReaderAllOrNothing(c, "C07.R10") }},
 		},
 	})
 	register(&Property{
 		ID: "C09",
 		Explanation: "Decides, for everything reachable from Run/RunFiles, an inventory of panic-capable constructs each discharged by a named rule: (R1) explicit panics - fall-out of complete type switches / exhaustive enum switches, the evaluator's SHOULDN'T GET HERE panics by R2, or a frozen trusted table (VM invariants, operating-system failures); (R2) every operand-type cell the checker accepts has a non-panicking evaluator leaf; (R3) the flow-insensitive checker binds variable types monotonically; (R4) integer division has a tested divisor; (R5) instruction fetch is dominated by a program-counter bound test; (R6) reads at end of input; (R7) type assertions; (R8) results of Peek/Pop/Index are tested before dereference; (R9) readers are closed by the function that opened them and do not outlive their iteration; (R10) the VM-invariant panics of the trusted table rest on checkpoints being isolated snapshots: Copy gives every stack and map of a saved state its own storage (same rule as C02.R1); (R11) every Optional.GetValue is dominated by HasValue() on the same optional; (R12) the scan discipline on which the trusted `byte at the scan offset exists` panic rests. " +
 			"Does NOT decide index safety that depends on VM invariants (branch lists non-empty, capture offsets inside the match, jump targets in range) nor process loops that never end." +
-			" Round 4: (R15) variable indexes into fixed-size tables are bounded by the table length. (R16) the token kinds the list parser admits, the classes parse_character_class makes of them and GetMaxSize agree: no admitted class has a negative size.",
+			" Round 4: (R15) variable indexes into fixed-size tables are bounded by the table length. (R16) the token kinds the list parser admits, the classes parse_character_class makes of them and GetMaxSize agree: no admitted class has a negative size." +
+			" Round 5: (R17) no allocation is sized by a number written in the program.",
 		Assumptions: commonAssumptions,
 		Rules: []RuleFn{
 			{Name: "C09.R1", Run: func(c *Ctx) {
@@ -282,12 +305,14 @@ func init() {
 			{Name: "C09.R14", Run: func(c *Ctx) { ruleReadOffsetsNonNegative(c, "C09.R14") }},
 			{Name: "C09.R15", Run: func(c *Ctx) { ruleArrayIndexBounded(c, "C09.R15", []string{"engine", "files", "ds", "algo"}) }},
 			{Name: "C09.R16", Run: func(c *Ctx) { ruleListedClassesHaveSize(c, "C09.R16") }},
+			{Name: "C09.R17", Run: func(c *Ctx) { ruleNoAllocationFromProgramNumbers(c, "C09.R17", []string{"engine", "ds", "files"}) }},
 		},
 	})
 	register(&Property{
 		ID: "C20",
 		Explanation: "Correctness of the star matcher (pathMatches, SplitKeep, Window) is a string-algorithm property and is NOT decided; its first-occurrence search after a star is invisible to a sound structural rule. Decided (`none extra ... directories are never listed`): (R1) every path that GetFileList itself adds to its result is control-dependent on `not a directory` and on pathMatches against the pattern segment, and every recursive call is made on the shrunk pattern, so recursion depth is bounded by the number of segments; (R2) no path or file name is cut with a cutset of two or more different characters that includes a file-name character (strings.TrimLeft(p, \"./\") eats the dot of dot-names); (R3) a conjunction of HasPrefix and HasSuffix on one name comes with a comparison of the lengths (the affixes may overlap otherwise)." +
-			" Round 4: (R4) a parsed Path is immutable; (R5) no byte of a pattern is converted to a string as a code point.",
+			" Round 4: (R4) a parsed Path is immutable; (R5) no byte of a pattern is converted to a string as a code point." +
+			" Round 5: (R6) the listing reads no package-level variable that the program writes.",
 		Assumptions: commonAssumptions,
 		Rules: []RuleFn{
 			{Name: "C20.R1", Run: func(c *Ctx) { ruleFileListGuards(c, "C20.R1") }},
@@ -295,13 +320,15 @@ func init() {
 			{Name: "C20.R3", Run: func(c *Ctx) { ruleAffixOverlap(c, "C20.R3", []string{"files", "algo"}) }},
 			{Name: "C20.R4", Run: func(c *Ctx) { rulePathImmutable(c, "C20.R4") }},
 			{Name: "C20.R5", Run: func(c *Ctx) { ruleNoByteToStringConversion(c, "C20.R5", []string{"files", "algo"}) }},
+			{Name: "C20.R6", Run: func(c *Ctx) { ruleListingReadsNoRunTimeState(c, "C20.R6") }},
 		},
 	})
 	register(&Property{
 		ID: "C10",
 		Explanation: "Termination itself is NOT decided. Decided are the mechanisms that make it true: (R1) in matchStartLoop the zero-width check dominates every start of a further iteration, and on a zero-width iteration the only effect is BACKTRACK and return; the recorded start is only ever len(currentMatch); (R2) matchEndNotIn advances only when the offset changed across CONSUME; (R3) every instruction handler and every MATCH* primitive moves the state (NEXT/JUMP/RETURN/BACKTRACK/FAIL) on every returning path (must-analysis over the CFG, greatest fixpoint over the primitives); (R4) the outer scan advances (scan discipline); (R5) loop identity compares loop id and call depth; (R6) every loop inside an instruction handler that calls CONSUME has an exit that tests the offset against reader.Size() (directly or in every predicate the exit can call); R1 also requires every increment of the iteration counter to re-record the iteration start on all paths. " +
 			"Does NOT decide weakened-but-present guards, nor recursion that consumes nothing (excluded by the property)." +
-			" Round 4: (R9) nothing is consumed at the end of the input (same rule as C01.R8); (R10) with the body's status fixed to the one set by `return`/`break` the process-loop executor has no feasible cycle; R1 accepts a skipped zero-width check only on an edge where `iteration < MinLoops`.",
+			" Round 4: (R9) nothing is consumed at the end of the input (same rule as C01.R8); (R10) with the body's status fixed to the one set by `return`/`break` the process-loop executor has no feasible cycle; R1 accepts a skipped zero-width check only on an edge where `iteration < MinLoops`." +
+			" Round 5: (R11) replacer handlers advance the program counter on every path; (R12) the loop-stack protocol (same rule as C01.R5).",
 		Assumptions: commonAssumptions,
 		Rules: []RuleFn{
 			{Name: "C10.R1", Run: func(c *Ctx) { ruleZeroWidthGuard(c, "C10.R1") }},
@@ -314,6 +341,8 @@ func init() {
 			{Name: "C10.R8", Run: func(c *Ctx) { ruleJumpsGoForward(c, "C10.R8") }},
 			{Name: "C10.R9", Run: func(c *Ctx) { ruleNothingConsumedAtEnd(c, "C10.R9") }},
 			{Name: "C10.R10", Run: func(c *Ctx) { ruleProcessLoopEnds(c, "C10.R10") }},
+			{Name: "C10.R11", Run: func(c *Ctx) { ruleReplacerHandlersMove(c, "C10.R11") }},
+			{Name: "C10.R12", Run: func(c *Ctx) { ruleLoopProtocol(c, "C10.R12") }},
 		},
 	})
 	register(&Property{
@@ -355,7 +384,8 @@ func init() {
 	register(&Property{
 		ID: "C14",
 		Explanation: "Equivalence with a regex engine is NOT decided (value-level; it is C01 plus this). Decided: the regex-specific translation tables and the numbering order - (R1) the quantifier table of parse_regexp_quantifier, extracted from the AstLoop literals and the character tests that control them (* + ? {m} {m,} {m,n}), and that the lazy marker applies to every quantifier; (R2) the atom table (^ $ . \\d \\D \\s \\S); (R3) a capturing group reads its number before its body is parsed (numbering by opening parenthesis)." +
-			" Round 4: (R6) the loop-stack protocol (same rule as C01.R5); (R7) no byte of a regexp literal is converted to a string as a code point; (R8) the scan discipline (same rule as C01.R3).",
+			" Round 4: (R6) the loop-stack protocol (same rule as C01.R5); (R7) no byte of a regexp literal is converted to a string as a code point; (R8) the scan discipline (same rule as C01.R3)." +
+			" Round 5: (R9) group numbering restarts per literal and every capturing group takes a number; (R10) the empty text matches with zero width; (R11) renumbering passes cover every program-counter field.",
 		Assumptions: commonAssumptions,
 		Rules: []RuleFn{
 			{Name: "C14.R1", Run: func(c *Ctx) { ruleRegexQuantifiers(c, "C14.R1") }},
@@ -366,6 +396,9 @@ func init() {
 			{Name: "C14.R6", Run: func(c *Ctx) { ruleLoopProtocol(c, "C14.R6") }},
 			{Name: "C14.R7", Run: func(c *Ctx) { ruleNoByteToStringConversion(c, "C14.R7", []string{"ast", "bytecode", "engine"}) }},
 			{Name: "C14.R8", Run: func(c *Ctx) { ruleScanDiscipline(c, "C14.R8") }},
+			{Name: "C14.R9", Run: func(c *Ctx) { ruleGroupNumbering(c, "C14.R9", true) }},
+			{Name: "C14.R10", Run: func(c *Ctx) { ruleEmptyTextMatches(c, "C14.R10") }},
+			{Name: "C14.R11", Run: func(c *Ctx) { ruleRenumberingComplete(c, "C14.R11") }},
 		},
 	})
 	register(&Property{
@@ -421,7 +454,8 @@ func init() {
 		ID: "C18",
 		Explanation: "Decides structural conditions of the command-line tool in package main: (R1) every os.OpenFile used for the JSON output files has a write access mode and permission bits, and every document written to a file is preceded by O_TRUNC or a dominating Truncate of that file (also inside the helper that returns the file); (R2) on every path of main.main that can continue to the statement printing the JSON document, no other call may write to standard output (call graph closure over fmt.Print*/os.Stdout; exempt: calls control-dependent on -debug, the user-requested debug statement, paths cut by os.Exit/log.Fatal/return or by contradictory flag conditions); (R3) every failure exit has a non-zero status and cannot execute after RunFiles; (R4) the -replace-mode table (partial evaluation of replaceMode) and the NEW default; (R5) the documented flags are registered with the documented kinds (anywhere in package main); (R6) no path is cut with a multi-character cutset. Flags may be variables or fields of an options struct. " +
 			"Does NOT decide the process-level behaviour of the built binary (exit status, bytes on stdout)." +
-			" Round 4: (R9) the searched file list never contains a directory (same rule as C20.R1).",
+			" Round 4: (R9) the searched file list never contains a directory (same rule as C20.R1)." +
+			" Round 5: (R10) no computed text is used as a format string; (R11) no output file is opened before the program compiled.",
 		Assumptions: append([]string{"flag.PrintDefaults, log.Fatal and the builtin println write to standard error"}, commonAssumptions...),
 		Rules: []RuleFn{
 			{Name: "C18.R1", Run: func(c *Ctx) { ruleCLIOpenForWriting(c, "C18.R1") }},
@@ -433,6 +467,8 @@ func init() {
 			{Name: "C18.R7", Run: func(c *Ctx) { ruleJSONMarshalSafe(c, "C18.R7"); ruleJSONTextUntouched(c, "C18.R7b") }},
 			{Name: "C18.R8", Run: func(c *Ctx) { ruleModeTable(c, "C18.R8") }},
 			{Name: "C18.R9", Run: func(c *Ctx) { ruleFileListGuards(c, "C18.R9") }},
+			{Name: "C18.R10", Run: func(c *Ctx) { ruleNoDataAsFormat(c, "C18.R10", []string{"main"}) }},
+			{Name: "C18.R11", Run: func(c *Ctx) { ruleNoFileBeforeCompile(c, "C18.R11") }},
 		},
 	})
 	register(&Property{
@@ -441,13 +477,14 @@ func init() {
 			"accessed without synchronisation by code reachable from Compile/CompileFile/(*Vore).Run/RunFiles; (R2/R3) run-time code never stores into the " +
 			"shared compiled program (bytecode/ast objects, *Vore); (R4) no go statements, unsafe, cgo, and every library call goes to an allow-listed goroutine-safe package. " +
 			"Under R1-R4 two calls share only read-only memory. Does NOT decide determinism of results beyond that (random loop ids are unobservable by design)." +
-			" Round 4: (R2) every mutex Lock is released on every path out of its function.",
+			" Round 4: (R5) every mutex Lock is released on every path out of its function; (R6) what Compile writes at package level is re-initialised before it is used (same rule as C13.R5).",
 		Assumptions: append([]string{"standard-library packages on the allow-list are goroutine-safe as documented"}, commonAssumptions...),
 		Rules: []RuleFn{
 			{Name: "C19.R1", Run: func(c *Ctx) { ruleGlobals(c, "C19.R1", c.apiRoots(), "Compile/CompileFile/(*Vore).Run/RunFiles") }},
-			{Name: "C19.R2", Run: func(c *Ctx) {
-				ruleLocksReleased(c, "C19.R2", []string{"ast", "bytecode", "engine", "libvore", "files"})
+			{Name: "C19.R5", Run: func(c *Ctx) {
+				ruleLocksReleased(c, "C19.R5", []string{"ast", "bytecode", "engine", "libvore", "files"})
 			}},
+			{Name: "C19.R6", Run: func(c *Ctx) { ruleGlobalsReinit(c, "C19.R6") }},
 			{Name: "C19.R2", Run: func(c *Ctx) { ruleProgramReadOnly(c, "C19.R2") }},
 			{Name: "C19.R4", Run: func(c *Ctx) { ruleLibraryCalls(c, "C19.R4") }},
 		},
